@@ -488,3 +488,106 @@ Proof.
   unfold req_handle. cbn [handler_result]. rewrite Hr.
   destruct (is_special _); destruct (typ =? CON); eexists; split; try reflexivity; repeat split.
 Qed.
+
+(* ================= the request message is the handler's while it runs ================= *)
+(* handleReq (the code, [RBefore]) takes the request's type and message ID before it calls the handler; whatever the
+   handler then does with the message object -- re-labels it to forward it, hijacks it and releases it to the pool --
+   the copy is processed exactly as if it had been left alone. *)
+Theorem req_use_irrelevant : forall s u typ mid tok code ro b,
+  step_u RBefore s u typ mid tok code ro b = step s (Req typ mid tok code ro b).
+Proof. intros. unfold step_u. cbn [step label_read r_typ r_mid]. reflexivity. Qed.
+
+Lemma ustep_erase s e : ustep RBefore s e = step s (erase_use e).
+Proof. destruct e as [u typ mid tok code ro b|e]; cbn [ustep erase_use]; [apply req_use_irrelevant|reflexivity]. Qed.
+
+Theorem urun_erase : forall evs s, urun RBefore s evs = run s (map erase_use evs).
+Proof.
+  induction evs as [|e evs IH]; intros s; [reflexivity|].
+  cbn [urun run map]. rewrite ustep_erase. destruct (step s (erase_use e)) as [s1 o]. rewrite IH. reflexivity.
+Qed.
+
+(* the acknowledgement of a handled confirmable request carries the request's message ID *)
+Lemma con_reply_matched s mid tok code ro b :
+  req_lookup CON mid (cache s) = None ->
+  exists r, o_out (snd (step s (Req CON mid tok code ro b))) = [r] /\ w_typ r = ACK /\ w_mid r = mid.
+Proof.
+  intros L. cbn [step]. rewrite L. cbn [snd obs_of_reply o_out]. unfold req_handle.
+  destruct (handler_result tok ro b) as [h|]; [destruct (is_special h)|]; cbn [Z.eqb CON hd_reply];
+    eexists; (split; [reflexivity|split; reflexivity]).
+Qed.
+
+(* C05 over histories in which every handler may use its request in any of these ways: the first copy (handled),
+   any history of at most the lifetime, another copy with the same message ID -- not handled again, same reply,
+   matched to the copy's ID; and the first acknowledgement carries the request's ID. *)
+Theorem dedup_once_any_use : forall s u typ mid tok code ro b s1 o1 evs u2 typ2 tok2 code2 ro2 b2,
+  step_u RBefore s u typ mid tok code ro b = (s1, o1) ->
+  is_cacheable_typ typ = true -> o_called o1 = true -> (typ = CON \/ o_out o1 <> []) ->
+  ages_ok (map erase_use evs) -> total_age (map erase_use evs) <= LIFETIME ->
+  is_cacheable_typ typ2 = true ->
+  let o2 := snd (step_u RBefore (fst (urun RBefore s1 evs)) u2 typ2 mid tok2 code2 ro2 b2) in
+  o_called o2 = false /\
+  exists r1 r2, o_out o1 = [r1] /\ o_out o2 = [r2] /\ same_content r2 r1 /\ w_mid r2 = mid /\
+                w_typ r2 = (if typ2 =? CON then ACK else NON) /\
+                (typ = CON -> w_typ r1 = ACK /\ w_mid r1 = mid).
+Proof.
+  intros s u typ mid tok code ro b s1 o1 evs u2 typ2 tok2 code2 ro2 b2 St Ct Cal Hc Ha Hage Ct2.
+  rewrite req_use_irrelevant in St. rewrite urun_erase, req_use_irrelevant.
+  pose proof (dedup_once s typ mid tok code ro b s1 o1 (map erase_use evs) typ2 tok2 code2 ro2 b2 St Ct Cal Hc Ha Hage Ct2)
+    as [H1 [r1 [r2 [Ho1 [Ho2 [Hs [Hm Ht]]]]]]].
+  cbv zeta. split; [exact H1|]. exists r1, r2.
+  split; [exact Ho1|]. split; [exact Ho2|]. split; [exact Hs|]. split; [exact Hm|]. split; [exact Ht|].
+  intros ->. cbn [step] in St. destruct (req_lookup CON mid (cache s)) as [en|] eqn:L.
+  - injection St as <- <-. cbn in Cal. discriminate.
+  - destruct (con_reply_matched s mid tok code ro b L) as [r [Hr [Hty Hmi]]].
+    cbn [step] in Hr. rewrite L in Hr. injection St as <- <-. cbn [snd] in Hr. rewrite Hr in Ho1. injection Ho1 as <-.
+    split; assumption.
+Qed.
+
+(* ---------- the variant that reads the request after the handler returned ---------- *)
+
+(* it is the code as long as the handler keeps the labels *)
+Theorem late_read_same_if_kept : forall s u typ mid tok code ro b,
+  use_req u {| r_typ := typ; r_mid := mid |} = {| r_typ := typ; r_mid := mid |} ->
+  step_u RAfter s u typ mid tok code ro b = step_u RBefore s u typ mid tok code ro b.
+Proof. intros s u typ mid tok code ro b E. unfold step_u, label_read. rewrite E. reflexivity. Qed.
+
+Lemma cache_load_of_same_lookup c c' k : lookup c' k = lookup c k -> cache_load c' k = cache_load c k.
+Proof. unfold cache_load. intros ->. reflexivity. Qed.
+
+(* ... and otherwise it breaks the property: when the handler of a fresh request leaves the message with another
+   message ID (re-labelled for forwarding, or released: -1), the reply is stored under that ID -- or not at all --
+   and EVERY later copy of the request is handed to the handler again. *)
+Theorem late_read_reexecutes : forall s u typ mid tok code ro b u2 tok2 code2 ro2 b2,
+  req_lookup typ mid (cache s) = None ->
+  r_mid (use_req u {| r_typ := typ; r_mid := mid |}) <> mid ->
+  let s1 := fst (step_u RAfter s u typ mid tok code ro b) in
+  o_called (snd (step_u RAfter s1 u2 typ mid tok2 code2 ro2 b2)) = true.
+Proof.
+  intros s u typ mid tok code ro b u2 tok2 code2 ro2 b2 L Hk. cbv zeta.
+  unfold step_u at 2. rewrite L. cbn [fst cache label_read].
+  set (k := use_req u {| r_typ := typ; r_mid := mid |}) in *.
+  set (h := req_handle (r_typ k) (r_mid k) tok ro b (req_check typ mid (own s))).
+  assert (L1 : req_lookup typ mid (req_store (r_mid k) h (cache s)) = None).
+  { unfold req_lookup in *. destruct (is_cacheable_typ typ); [|reflexivity].
+    rewrite <- L. apply cache_load_of_same_lookup.
+    destruct (req_store_cases (r_mid k) h (cache s)) as [->|[r0 ->]]; [reflexivity|].
+    apply lookup_store_other. congruence. }
+  unfold step_u. cbn [cache]. rewrite L1. reflexivity.
+Qed.
+
+(* concrete instances (the seeded regression C05-7): a confirmable GET with ID 4660 whose handler re-labels the
+   request with the upstream ID 9 / releases it, then the same datagram again.  The code: handled once, both
+   acknowledgements carry 4660.  The late-reading variant: handled twice, and the first reply is an ACK with ID 9,
+   resp. a CON with an own ID (the own counter starts at 4096 and is moved away from the peer's ID first). *)
+Definition demo_hist (u : ruse) : list uev :=
+  [UReq u CON 4660 [1; 2] 1 [] (BResp 69 [] [7]); UReq u CON 4660 [1; 2] 1 [] (BResp 69 [] [8])].
+Definition demo_view (rp : readpt) (u : ruse) : list (bool * list (Z * Z)) :=
+  map (fun o => (o_called o, map (fun w => (w_typ w, w_mid w)) (o_out o))) (snd (urun rp (init 4096) (demo_hist u))).
+
+Theorem late_read_refuted :
+  demo_view RBefore (URelabel CON 9) = [(true, [(ACK, 4660)]); (false, [(ACK, 4660)])] /\
+  demo_view RBefore URelease = [(true, [(ACK, 4660)]); (false, [(ACK, 4660)])] /\
+  demo_view RAfter (URelabel CON 9) = [(true, [(ACK, 9)]); (true, [(ACK, 9)])] /\
+  demo_view RAfter URelease = [(true, [(CON, 36864)]); (true, [(CON, 36866)])] /\
+  demo_view RAfter (URelabel NON 4660) = [(true, [(CON, 36864)]); (false, [(ACK, 4660)])].
+Proof. vm_compute. repeat split; reflexivity. Qed.
